@@ -97,7 +97,7 @@ class RSec(RFn):
     """one top-level statement of `rrule.__init__` (the `if` that first tests / assigns `anchor`), as a function of the
     variables it reads (`params`) returning the variables in `outs`; `self._x` is the local `self__x`"""
     def __init__(self, qualname, leanname, anchor, params, outs, locals_=None):
-        ret = outs[0][1] if len(outs) == 1 else tuple(t for _, t in outs)
+        ret = "Unit" if not outs else (outs[0][1] if len(outs) == 1 else tuple(t for _, t in outs))
         RFn.__init__(self, qualname, leanname, "sec", params, ret, dict(locals_ or {}, **{n: t for n, t in outs}))
         self.anchor, self.outs = anchor, outs
 
@@ -307,6 +307,10 @@ class RTr:
         if want == "OptIntList" and ty == "Int": return "(some [%s])" % t           # a scalar BY argument is the 1-tuple (Args convention)
         if want == "OptPairList" and ty == "Int": return "(some [(%s, 0)])" % t     # an int weekday is the weekday object without n
         if ty == "EmptyList" and want in ELEM: return "[]"
+        if ty == "EmptyList" and want in OPT_OF and OPT_OF[want] in ELEM: return "(some [])"
+        if want == "OptTimeList" and ty == "TimeList": return "(some %s)" % t
+        if want == "Pair" and ty == ("Int", "Int"): return t
+        if want == "Int" and ty == "OptInt": raise Untranslatable("optional int used as an int outside a branch that knows it is not None")
         if want == "OptIntList" and ty == "EmptyList": return "(some [])"
         raise Untranslatable("value of type %s where %s is expected" % (ty, want))
 
@@ -461,7 +465,7 @@ class RTr:
                 if ty not in ELEM: raise Untranslatable("len of %s" % (ty,))
                 return b, "(%s.length : Int)" % t, "Int"
             if fn == "set" and not e.args:
-                return [], "[]", "IntSet" if want != "PairSet" else "PairSet"
+                return [], "[]", "PairSet" if want in ("PairSet", "OptPairList") else "IntSet"
             if fn == "tuple" and len(e.args) == 1 and not e.keywords:
                 b, t, ty = self.expr(e.args[0])
                 if ty in ("IntList", "IntSet"): return b, t, "IntList"
@@ -506,6 +510,8 @@ class RTr:
             raise Untranslatable("call %s" % fn)
         if isinstance(f, ast.Attribute):
             tgt = f.value
+            if isinstance(tgt, ast.Name) and tgt.id == "calendar" and f.attr == "firstweekday" and not e.args and "fwd" in self.types:
+                return [], "fwd", "Int"          # the process-wide first weekday is an explicit input (`constructW k`)
             if isinstance(tgt, ast.Name) and tgt.id == "calendar" and f.attr == "isleap" and len(e.args) == 1:
                 b, y = self.int_expr(e.args[0])
                 return b, "(Cal.isLeap %s)" % y, "Bool"
@@ -733,6 +739,20 @@ class RTr:
             n = self.var(c.func.value)
             ty = self.types.get(n)
             m = c.func.attr
+            if ty in OPT_OF and n in self.nonnull and m in ("add", "append", "sort"):
+                # a slot declared optional that holds a value here: operate on the value
+                inner = {"OptIntList": "IntSet", "OptPairList": "PairSet", "OptTimeList": "TimeList"}.get(ty)
+                cur = "(RrPy.the %s)" % nm(n)
+                if m == "add" and inner in ("IntSet", "PairSet") and len(c.args) == 1:
+                    b, v, vty = self.expr(c.args[0])
+                    v = self.coerce(v, vty, ELEM[inner])
+                    return self.emit_binds(b) + ["let %s := some (RrPy.setAdd %s %s)" % (nm(n), cur, v)] + self.block(rest, k, lo)
+                if m == "append" and inner == "TimeList" and len(c.args) == 1:
+                    b, v, vty = self.expr(c.args[0], "Time")
+                    return self.emit_binds(b) + ["let %s := some (%s ++ [%s])" % (nm(n), cur, v)] + self.block(rest, k, lo)
+                if m == "sort" and inner == "TimeList" and not c.args:
+                    return ["let %s := some (RRule.sortBy RRule.ltHMS %s)" % (nm(n), cur)] + self.block(rest, k, lo)
+                raise Untranslatable("method call .%s on %s" % (m, ty))
             if m == "add" and ty == "IntSet" and len(c.args) == 1:
                 b, v = self.int_expr(c.args[0])
                 return self.emit_binds(b) + ["let %s := RrPy.setAdd %s %s" % (nm(n), nm(n), v)] + self.block(rest, k, lo)
@@ -1012,6 +1032,15 @@ INIT_SECS = [
     RSec("rrule.__init__[bymonthday]", "init_bymonthday", "_bymonthday", BYP("bymonthday"),
          [("self__bymonthday", "IntList"), ("self__bynmonthday", "IntList")]),
     RSec("rrule.__init__[bysetpos]", "init_bysetpos", "_bysetpos", BYP("bysetpos"), [("self__bysetpos", "OptIntList")]),
+    RSec("rrule.__init__[interval]", "init_interval", "interval", [("interval", "Int")], []),
+    RSec("rrule.__init__[wkst]", "init_wkst", "wkst", [("fwd", "Int"), ("wkst", "OptInt")], [("self__wkst", "Int")]),
+    RSec("rrule.__init__[defaults]", "init_defaults", "byweekno",
+         [("freq", "Int"), ("dtstart", "DT"), ("bymonth", "OptIntList"), ("bymonthday", "OptIntList"), ("byyearday", "OptIntList"),
+          ("byeaster", "OptIntList"), ("byweekno", "OptIntList"), ("byweekday", "OptPairList")],
+         [("bymonth", "OptIntList"), ("bymonthday", "OptIntList"), ("byweekday", "OptPairList")]),
+    RSec("rrule.__init__[timeset]", "init_timeset", "_timeset",
+         [("self__freq", "Int"), ("self__byhour", "OptIntList"), ("self__byminute", "OptIntList"), ("self__bysecond", "OptIntList")],
+         [("self__timeset", "OptTimeList")]),
     RSec("rrule.__init__[byhour]", "init_byhour", "_byhour",
          [("freq", "Int"), ("dtstart", "DT"), ("self__interval", "Int"), ("byhour", "OptIntList")], [("self__byhour", "OptIntList")]),
     RSec("rrule.__init__[byminute]", "init_byminute", "_byminute",
